@@ -22,12 +22,13 @@
         has multi-byte letters even later, because tryReadDollarTag advances len(tag) BYTES worth of runes):
         for those (a) and (b) still hold (Example C13_prefixed_string_records_a_later_rune), and a plain
         'string' cannot be told apart from them by the item alone.
+   (e): a position names at most one non-EOF token of a result (offsets strictly increase by index).
    (d): the parser side is a generated inventory (Gen/PosMessages.v), see Lexer/PosMessagesCheck.v and the
         header of /verif/translator/cmd/posmsggen/main.go for the argument; the implementation-side
         oracle is /verif/harness/cmd/posmsg. *)
 From Coq Require Import List NArith Bool Sorted.
 From DC Require Import Base.Utf8 Base.Unicode Base.Item Gen.TokenTable Gen.PosMessages
-  Lexer.LexerModel Lexer.LexerPosSpec Lexer.LexerPos Lexer.PosMessagesCheck.
+  Lexer.LexerModel Lexer.LexerPosSpec Lexer.LexerPos Lexer.LexerPosUnique Lexer.PosMessagesCheck.
 Import ListNotations.
 Local Open Scope N_scope.
 
@@ -74,6 +75,19 @@ Theorem C13_c_position_is_first_character : forall (bs : list N) (items : list i
       (it_tok i = T_NUMBER -> is_digit r = true \/ r = 46).
 Proof. exact tokenize_token_start. Qed.
 Print Assumptions C13_c_position_is_first_character.
+
+(* (e) a reported position names at most one token: within one Tokenize result, an earlier non-EOF token
+       has a strictly smaller offset than a later one (indices, not just list order), so two non-EOF
+       tokens carrying the same Position are the same element -- a "line L, column C" of an error message
+       cannot be attributed to two different tokens.  (EOF is excluded as in (a): it repeats the position
+       of the last rune, Example C13_two_lines_with_a_multibyte_rune.) *)
+Theorem C13_e_position_names_one_token : forall (bs : list N) (pre : list item) (e : item),
+  tokenize bs = Some (pre ++ [e]) ->
+  (forall m n i j, (m < n)%nat -> nth_error pre m = Some i -> nth_error pre n = Some j ->
+     p_off (it_pos i) < p_off (it_pos j)) /\
+  (forall m n i j, nth_error pre m = Some i -> nth_error pre n = Some j -> it_pos i = it_pos j -> m = n).
+Proof. exact tokenize_position_names_one_token. Qed.
+Print Assumptions C13_e_position_names_one_token.
 
 (* (d) every message of package parser that carries "line %d, column %d" prints X.Pos.Line, X.Pos.Column
        of one token register X; the registers only ever hold results of lexer.NextToken(). *)
